@@ -535,7 +535,8 @@ def _new_exc(cls, *args):
     return e
 
 
-@harness('N2', targets='kopf._cogs.clients.api.request', props=['C12', 'C19', 'C13', 'C03', 'C08', 'C06'],
+@harness('N2', targets='kopf._cogs.clients.api.request', props=['C12', 'C19', 'C13', 'C03', 'C08', 'C06', 'C20', 'C05', 'C17', 'C01'],
+         prop_clauses={'C20': ['attempts_bounded', 'cancellation_propagates'], 'C05': ['same_request', 'success_returns_response'], 'C17': ['success_returns_response'], 'C01': ['success_returns_response', 'same_request']},
          clauses=['retried_kinds', 'attempts_bounded', 'sleep_is_backoff', 'never_less_than_retry_after', 'retry_after_policy',
                   'escalates_at_once', 'session_closed_reauth', 'success_returns_response', 'same_request',
                   'url_resolved_against_server', 'timeout_explicit_or_configured',
@@ -868,7 +869,8 @@ class _BodyBase(BaseException):
     """a BaseException that is not an Exception (e.g. a cancellation, SystemExit)"""
 
 
-@harness('T2', targets='kopf._core.actions.throttlers.throttled', props=['C12'],
+@harness('T2', targets='kopf._core.actions.throttlers.throttled', props=['C12', 'C20', 'C09', 'C10', 'C11', 'C14', 'C17', 'C01', 'C03'],
+         prop_clauses={'C20': ['others_propagate'], 'C09': ['gate', 'error_activates'], 'C10': ['gate', 'success_resets'], 'C11': ['gate'], 'C14': ['gate'], 'C17': ['gate'], 'C01': ['error_activates'], 'C03': ['gate', 'pause_served_or_remembered']},
          clauses=['gate', 'error_activates', 'delay_selection', 'no_delays_no_throttling', 'others_propagate',
                   'success_resets', 'pause_served_or_remembered', 'frame'],
          canaries=['canary.always_runs', 'canary.never_swallows', 'canary.always_served'],
@@ -1062,7 +1064,8 @@ class _OtherError(Exception):
 @harness('N3', targets=['kopf._cogs.clients.auth.authenticated', 'kopf._cogs.structs.credentials.Vault.invalidate',
                         'kopf._cogs.structs.credentials.Vault._update_converted', 'kopf._cogs.structs.credentials.Vault.select',
                         'kopf._cogs.structs.credentials.Vault.populate'],
-         props=['C12'],
+         props=['C12', 'C20', 'C08', 'C13', 'C19', 'C03'],
+         prop_clauses={'C20': ['others_at_once'], 'C08': ['calls_with_fresh_context', 'reauth_on_401', 'others_at_once'], 'C13': ['calls_with_fresh_context'], 'C19': ['calls_with_fresh_context', 'others_at_once'], 'C03': ['calls_with_fresh_context', 'reauth_on_401']},
          clauses=['explicit_context_passthrough', 'calls_with_fresh_context', 'reauth_on_401', 'others_at_once',
                   'invalidate_removes_only_identical', 'invalidated_remembered', 'blocks_until_reauthenticated',
                   'login_error_if_still_empty', 'invalid_not_readmitted', 'select_from_current', 'populate_releases_waiters',
